@@ -93,6 +93,28 @@ fn tiling_case(text: &str) -> i32 {
         println!("VIOLATED: the tokens end at {cursor} but the text has {len} chars (characters lost)");
         bad = 1;
     }
+    // every maximal run of decimal digits (not part of a word, decimal or hex literal) is covered by ONE number token that starts at
+    // the run and ends at its end (or two characters later, when an ordinal suffix was attached)
+    {
+        let mut i = 0;
+        while i < len {
+            if chars[i].is_ascii_digit() && (i == 0 || !(chars[i - 1].is_alphanumeric() || ".,_-+@:/".contains(chars[i - 1]))) {
+                let mut j = i;
+                while j < len && chars[j].is_ascii_digit() { j += 1; }
+                let sfx_follows = j + 2 <= len && ["st", "nd", "rd", "th"].contains(&chars[j..j + 2].iter().map(|c| c.to_ascii_lowercase()).collect::<String>().as_str())
+                    && (j + 2 == len || !(chars[j + 2].is_alphanumeric() || ".,_-+@:/'".contains(chars[j + 2])));
+                let plain = j == len || sfx_follows || !(chars[j].is_alphanumeric() || ".,_-+@:/'".contains(chars[j]));
+                if plain {
+                    let ok = doc.get_tokens().iter().any(|t| t.span.start == i && (t.span.end == j || t.span.end == j + 2) && matches!(t.kind, TokenKind::Number(_)));
+                    if !ok {
+                        println!("VIOLATED: the {} digits at {i}..{j} of {text:?} are not one number token", j - i);
+                        bad = 1;
+                    }
+                }
+                i = j;
+            } else { i += 1; }
+        }
+    }
     // every plain integer directly followed by exactly an ordinal suffix is ONE number token carrying that suffix
     let mut i = 0;
     while i < len {
@@ -278,6 +300,19 @@ fn cache_case(args: &[String]) -> i32 {
     if got.iter().any(|l| l.span.start > l.span.end || l.span.end > len2) {
         println!("VIOLATED: a lint span lies outside the text");
         bad = 1;
+    }
+    // independent of any cache: rule Q flags words starting with 'q', rule W words starting with 'w' - whatever a linter returns must
+    // sit exactly on such a word
+    let src2: Vec<char> = args[1].chars().collect();
+    for (who, lints) in [("long-lived", &got), ("fresh", &want)] {
+        for l in lints.iter() {
+            let want_c = if l.priority == 1 { 'q' } else { 'w' };
+            let on_word = d2.get_tokens().iter().any(|t| t.kind.is_word() && t.span == l.span);
+            if l.span.end > src2.len() || !on_word || src2[l.span.start] != want_c {
+                println!("VIOLATED: the {who} linter reports {:?} (rule tag {}) on {:?}, which is not a word starting with {want_c:?}", l.span, l.priority, args[1]);
+                bad = 1;
+            }
+        }
     }
     bad
 }
